@@ -737,3 +737,43 @@ def h5_position_table(ctx, rid='H5'):
 
 
 RULES = [('H5', h5_position_table)] + RULES
+
+
+def h6_no_narrowing(ctx, rid='H6'):
+    """H6 an offset or position (a value with a byte / character unit) is never cast to a narrower integer type: a long line
+    would wrap the positions of its highlight tokens"""
+    ctx.rule(rid, 'offsets are not narrowed', floor=1)
+    U = units_of(ctx)
+    WIDTH = {'u8': 8, 'i8': 8, 'u16': 16, 'i16': 16, 'u32': 32, 'i32': 32, 'u64': 64, 'i64': 64, 'usize': 64, 'isize': 64}
+    n = 0
+    for b in ctx.facts.src_bodies():
+        if b.kind not in ('fn', 'method', 'closure'):
+            continue
+        for i in b.normal_blocks:
+            for s in b.blocks[i]['stmts']:
+                if s['k'] != 'assign' or s['rv'] != 'cast' or not str(s.get('cast', '')).startswith('IntToInt'):
+                    continue
+                to, frm = str(s.get('to')), str(s.get('from'))
+                if to not in WIDTH or frm not in WIDTH or WIDTH[to] >= WIDTH[frm]:
+                    continue
+                un = U.unit(b, b.expr(s['ops'][0]))
+                if not un:
+                    continue
+                n += 1
+                ctx.fn(b)
+                ctx.finding(rid, '%s/narrowing/%s-as-%s' % (fn_key(b.path), frm, to), '%s casts a %s offset (%s) from %s to %s: positions beyond %d wrap around' % (
+                    fn_key(b.path), '/'.join(sorted(un)), render(b.expr(s['ops'][0]))[:60], frm, to, 2 ** (WIDTH[to] - (1 if to.startswith('i') else 0)) - 1), site=s['loc'])
+    # the element type of the byte -> character map
+    for adt, rec in ctx.facts.adts.items():
+        if adt.startswith('token::ui_token::'):
+            for v in rec['variants']:
+                for f in v['fields']:
+                    m = re.search(r'Vec<(u8|u16|u32|i8|i16|i32)>', f['ty'])
+                    if m and ('elem:%s.%s' % (adt, f['name'])) in U.field_units:
+                        ctx.finding(rid, '%s.%s/element-type' % (adt.rsplit('::', 1)[-1], f['name']), 'the position table %s.%s holds %s elements: positions beyond its range wrap around' % (adt.rsplit('::', 1)[-1], f['name'], m.group(1)), site=rec.get('loc'))
+                        n += 1
+    if not n:
+        ctx.ok(rid, 'no value with a byte / character unit is cast to a narrower integer type', 'units', site=None)
+
+
+RULES.append(('H6', h6_no_narrowing))
